@@ -1441,10 +1441,9 @@ class AstEval:
         if arg.value is not None:
             rhs = await self.aeval(arg.value)
             await self.recurse_assign(arg.target, rhs)
-        if isinstance(arg.target, ast.Name):
-            annotations = self.sym_table.setdefault("__annotations__", {})
-            if arg.annotation:
-                annotations[arg.target.id] = await self.aeval(arg.annotation)
+        if isinstance(arg.target, ast.Name) and arg.annotation:
+            annotation = await self.aeval(arg.annotation)
+            self.sym_table.setdefault("__annotations__", {})[arg.target.id] = annotation
 
     async def ast_namedexpr(self, arg):
         """Execute named expression."""
